@@ -40,10 +40,12 @@ DYNAMICS = {
 _envs = {}
 
 
-def make_env(name, shape):
-    key = (name, tuple(shape))
+def make_env(name, shape, variant=None):
+    key = (name, tuple(shape), variant)
     if key not in _envs:
         chain, term, actions = DYNAMICS[name]
+        if variant == 'obstacle_rivers':
+            term = 'obst'  # rivers made of moving obstacles terminate the episode when stepped on
         if term == 'exit':
             tf = TM.factory('reach_exit')
         else:
@@ -74,9 +76,9 @@ def keydoor_filter(k, actions):
     return actions
 
 
-def search(name, shape, init_keys, pruned=True, max_states=60000, dev_bound=None):
+def search(name, shape, init_keys, pruned=True, max_states=60000, dev_bound=None, variant=None):
     """explore from all init states (same static grid); returns (winnable set of init keys, graph stats, succ map, dist)"""
-    env = make_env(name, shape)
+    env = make_env(name, shape, variant)
     pred, succ, goals = {}, {}, set()
 
     def on_edge(k, st, a, choices, k2, st2, reward, done, g):
@@ -111,9 +113,13 @@ def witness(succ, dist, k):
     return path, k
 
 
+def variant_of(name, params):
+    return 'obstacle_rivers' if name == 'crossing' and params.get('object_type') == 'MovingObstacle' else None
+
+
 def validate_witness(name, params, script, path):
     """replay reset + path through the stateful interface of a fresh environment"""
-    env = make_env(name, params['shape'])
+    env = make_env(name, params['shape'], variant_of(name, params))
     env = GridWorld(env.state_space, env.action_space, env.observation_space,
                     reset_function=lambda *, rng=None: RS.call(name, params, rng),
                     transition_function=env._transition_function, observation_function=env._observation_function,
@@ -161,7 +167,7 @@ def judge_point(name, params, limit):
         # existence search: explore the dynamics' random outcomes with 0 deviations first (sound pruning: a witness
         # found there is a real execution); widen to 1 deviation and then to all outcomes before reporting anything
         for db in ((0, 1, None) if stochastic else (None,)):
-            dist, g, succ, problems = search(name, params['shape'], list(inits), dev_bound=db)
+            dist, g, succ, problems = search(name, params['shape'], list(inits), dev_bound=db, variant=variant_of(name, params))
             st['states'] += len(g.parent)
             st['transitions'] += g.transitions
             lost = [k for k in inits if k not in dist]
@@ -222,6 +228,8 @@ def points(tier):
         pts.append(('keydoor', {'shape': sh}))
         for nr in (1, 2, 5):
             pts.append(('crossing', {'shape': sh, 'num_rivers': nr, 'object_type': 'Wall'}))
+        # rivers of a non-blocking, terminating object type: the openings are then the only safe way across
+        pts.append(('crossing', {'shape': sh, 'num_rivers': 2, 'object_type': 'MovingObstacle'}))
         pts.append(('teleport', {'shape': sh}))
         pts.append(('memory', {'shape': sh, 'colors': RGBY}))
         for lay in ((1, 1), (1, 2), (2, 2), (3, 3), (3, 1)):
@@ -253,7 +261,7 @@ def replay(case):
     if isinstance(res, tuple):
         return None
     k = sdesc(res)
-    dist, g, succ, _ = search(name, params['shape'], [k], pruned=False, max_states=400000)
+    dist, g, succ, _ = search(name, params['shape'], [k], pruned=False, max_states=400000, variant=variant_of(name, params))
     if k in dist or g.capped:
         return None
     return 'the goal cannot be reached from this initial state'
